@@ -907,7 +907,13 @@ fn try_decode(ch: &mut Chooser, ctx: &mut Ctx, w: &mut World, g: usize) -> bool 
     let out = ctx.guarded(true, || obj.decode().map(|res| probe_decoder_result(&res, k, b, &given_o, probe_seed)));
     let out = match out {
         Ok(v) => v,
-        Err(msg) => return report_panic(ctx, &kind.name(), "decode", &format!("decode() with {n_o}+{n_r} of {k}"), failed, &msg),
+        Err(msg) => {
+            let stop = report_panic(ctx, &kind.name(), "decode", &format!("decode() with {n_o}+{n_r} of {k}"), failed, &msg);
+            if n_o + n_r >= k {
+                ctx.viol(&["C01"], "no-panic", format!("panic/store-decode/{}", panic_sig(&msg)), format!("reader {reader} {}({k},{r},{b}).decode() with enough shards ({n_o}+{n_r}) panicked: {msg}", kind.name()), true);
+            }
+            return stop || ctx.stop;
+        }
     };
     ev!(ctx, "t={} GET {g}: decode() with {n_o} original + {n_r} recovery of k={k} -> {:?}", w.now, out.as_ref().map(|p| p.as_ref().map(|m| m.len())));
     ctx.hash.feed_u64(out.as_ref().err().map_or(0, err_code));
@@ -954,7 +960,7 @@ fn try_decode(ch: &mut Chooser, ctx: &mut Ctx, w: &mut World, g: usize) -> bool 
     let restored = match probed {
         Ok(m) => m,
         Err(why) => {
-            return ctx.viol(&["C12", "C11"], "result-contract", "dec-result/store".into(), format!("reader {reader} {}({k},{r},{b}) DecoderResult: {why}", kind.name()), true);
+            return ctx.viol(if why.contains(" bytes, expected") { &["C12", "C04"] } else { &["C12", "C11", "C01"] }, "result-contract", "dec-result/store".into(), format!("reader {reader} {}({k},{r},{b}) DecoderResult: {why}", kind.name()), true);
         }
     };
     // safety: exactly the originals not delivered, byte for byte (C01, C11)
